@@ -89,6 +89,19 @@ def cut(rng, tree, block, depth_left, level, rootdir, chain):
     return reached
 
 
+def empty_includes(rng, tree, block):
+    """INCLUDE lines whose file is empty (or holds only blanks / a comment): substituting nothing leaves the document as it is"""
+    for it in list(block.items):
+        if it[0] == "block":
+            empty_includes(rng, tree, it[2])
+    if rng.random() < .2:
+        tree.count += 1
+        name = f"empty{tree.count}.map"
+        tree.files[name] = rng.choice(["", "", "\n", "  \n", "# nothing here\n"])
+        line, target = include_line(rng, name, None)
+        block.items.insert(rng.randrange(len(block.items) + 1), ("include", target, line))
+
+
 def render_items(items):
     holder = gen.Block("x")
     holder.items = items
@@ -171,6 +184,8 @@ def explore(ctx, scale=1.0):
                 continue
             depth = cut(rng, tree, work, want_depth, 0, root, chain=True) if want_depth else 0
             variant = rng.choice(["plain"] * 6 + ["cycle", "missing", "noexpand"])
+            if variant == "plain":
+                empty_includes(rng, tree, work)
             if variant == "cycle" and tree.files:
                 victim = rng.choice(sorted(tree.files))
                 tree.files[victim] += "\n" + include_line(rng, victim)[0]
